@@ -268,6 +268,8 @@ def run(ctx):
     import roles as _roles
     _roles.rule_R_ROLE(ctx, modules=('conversion::string::typst_formatter', 'enum_narsese::'))
     _roles.rule_A_NAMES(ctx, modules=('conversion::string::typst_formatter', 'enum_narsese::'))
+    import emit as _emit
+    _emit.rule_F_SKELETON_ALL(ctx, floor=5, which=("typst", "template"))
     ctx.undecided = ["injectivity of rendering over all pairs of values (only per-role/per-category distinctness and the layout rule are decided)",
                      "rendering equality up to the order of unordered components (depends on set iteration order)"]
     ctx.assumptions = ["ToDebug on the atom name yields a quoted, escaped string", "terms are finite trees (the formatter recurses on components)"]
